@@ -732,6 +732,40 @@ inline Res impl(const Decl& D, const std::vector<std::string>& av, const Env& en
     return run_on(p, D, av, on_accept);
 }
 
+// the other entry point: parse(std::vector<user_input>), the inputs built from the strings by the checking constructor
+inline Res impl_vector_entry(const Decl& D, const std::vector<std::string>& av, const Env& env)
+{
+    apply_env(D, env);
+    nitro::options::parser p;
+    build(p, D);
+    Res r;
+    try
+    {
+        std::vector<nitro::options::user_input> in;
+        for (auto& s : av)
+            in.emplace_back(s);
+        auto args = p.parse(in);
+        return snapshot(D, args);
+    }
+    catch (nitro::options::parsing_error&)
+    {
+        r.why = "parsing_error";
+    }
+    catch (nitro::options::parser_error& e)
+    {
+        r.why = std::string("parser_error: ") + e.what();
+    }
+    catch (std::exception& e)
+    {
+        r.why = std::string("std::exception: ") + e.what();
+    }
+    catch (...)
+    {
+        r.why = "foreign exception";
+    }
+    return r;
+}
+
 // ---------------------------------------------------------------------------------------------
 // comparison: list of failed clauses (empty = agreement)
 
